@@ -102,6 +102,19 @@ func buildArch1(dir string, names []string, prot map[string][]byte, nvols int, b
 	if len(names) > 0 {
 		derived = append(derived, names[0]+".tmp", names[0]+"~", names[len(names)-1]+".bak")
 	}
+	{
+		isProt := map[string]bool{}
+		for _, n := range names {
+			isProt[n] = true
+		}
+		var keep []string
+		for _, dn := range derived {
+			if !isProt[dn] {
+				keep = append(keep, dn)
+			}
+		}
+		derived = keep
+	}
 	for _, dn := range derived {
 		sandbox.WriteFile(filepath.Join(dir, dn), []byte("derived-name bystander "+dn))
 	}
